@@ -1,5 +1,641 @@
-"""Shared machinery for shape-P harnesses (symbolic parameters over concrete carriers)."""
+"""Shared machinery for shape-P harnesses: public pfst API calls on carrier programs with every integer / boolean
+parameter symbolic. The real pfst code runs under the symbolic tracer and forks on its own comparisons; the harness
+additionally case-splits ("pins") the outputs of its pure-Python list-semantics reference so that on every path both the
+real result and the expected result are single concrete values. Exhausting the path tree is therefore a z3-certified
+partition of the WHOLE integer domain of the parameters (negative, out of range, huge) for the listed carriers.
+
+Oracles here never call pfst: CPython's ast.parse / ast.dump / tokenize and Python list semantics only.
+"""
+from __future__ import annotations
+
+import ast
+import contextlib
+import re
+import io
+import tokenize
+from dataclasses import dataclass, field as dfield
+from typing import Callable, List, Optional
+
+from engine.h import Cell, assume, check, cover, fail, ref_slice_indices
+
+try:
+    from crosshair.core import deep_realize
+    from crosshair.core_and_libs import NoTracing
+    from crosshair.statespace import optional_context_statespace
+except Exception:  # pragma: no cover
+    optional_context_statespace = lambda: None  # noqa: E731
+
+import fst
+from fst import FST, NodeError
+from fst import fst_core
+
+EXPECTED_RAISES = (IndexError, ValueError, NodeError, NotImplementedError, SyntaxError, RuntimeError)
+
+
+def in_sym() -> bool:
+    return optional_context_statespace() is not None
+
+
+def untraced():
+    return NoTracing() if in_sym() else contextlib.nullcontext()
+
+
+def R(x):
+    return deep_realize(x) if in_sym() else x
+
+
+def pin(x, lo: int, hi: int) -> int:
+    """Case-split a symbolic int over [lo, hi] and return the concrete value of this path."""
+    for i in range(lo, hi + 1):
+        if x == i:
+            return i
+    fail('harness.pin_out_of_range', (lo, hi))
+
+
+def reset_globals():
+    fst_core._MODIFYING.clear()
+
+
+# ----------------------------------------------------------------------------------------------------------------------
+# concrete oracles (run untraced on concrete data)
+
+_POS = ('lineno', 'col_offset', 'end_lineno', 'end_col_offset')
+
+
+def realize_tree(a: ast.AST) -> None:
+    if not in_sym():
+        return
+    for n in ast.walk(a):
+        for k in _POS:
+            v = getattr(n, k, None)
+            if v is not None and type(v) is not int:
+                setattr(n, k, deep_realize(v))
+
+
+def dump(a, attrs=False) -> str:
+    return ast.dump(a, include_attributes=attrs) if isinstance(a, ast.AST) else repr(a)
+
+
+def o_parse(root: FST, sig: str, mode: str = 'exec'):
+    """C01 oracle: the source parsed from scratch by CPython equals the live tree incl. every position."""
+    src = root.src
+    try:
+        t = ast.parse(src, mode=mode)
+    except SyntaxError as e:
+        fail(sig + '.src_unparsable', (src, str(e)))
+    realize_tree(root.a)
+    d1 = ast.dump(t, include_attributes=True)
+    d2 = ast.dump(root.a, include_attributes=True)
+    if d1 != d2:
+        if ast.dump(t) != ast.dump(root.a):
+            fail(sig + '.tree_structure_differs_from_parse', (src, ast.dump(root.a)[:600], ast.dump(t)[:600]))
+        fail(sig + '.tree_positions_differ_from_parse', (src, _first_diff(d1, d2)))
+    return t
+
+
+def _first_diff(a: str, b: str):
+    i = 0
+    while i < min(len(a), len(b)) and a[i] == b[i]:
+        i += 1
+    return (a[max(0, i - 120): i + 80], b[max(0, i - 120): i + 80])
+
+
+def links_ok(root: FST, sig: str):
+    """parent / pfield / .f / .a links agree with a fresh walk of the AST."""
+    for n in ast.walk(root.a):
+        f = getattr(n, 'f', None)
+        check(f is not None and f.a is n, sig + '.ast_without_fst', type(n).__name__)
+        for name, val in ast.iter_fields(n):
+            kids = val if isinstance(val, list) else [val]
+            for i, k in enumerate(kids):
+                if isinstance(k, ast.AST):
+                    kf = getattr(k, 'f', None)
+                    check(kf is not None and kf.parent is f, sig + '.bad_parent_link', (type(n).__name__, name, i))
+                    pf = kf.pfield
+                    pname, pidx = R(pf.name), R(pf.idx)
+                    check(pname == name and pidx == (i if isinstance(val, list) else None), sig + '.bad_pfield',
+                          (type(n).__name__, name, i, (pname, pidx)))
+                    check(kf.root is root, sig + '.bad_root', (type(n).__name__, name, i))
+
+
+def tokens(src: str):
+    out = []
+    try:
+        for t in tokenize.generate_tokens(io.StringIO(src).readline):
+            if t.type in (tokenize.NL, tokenize.NEWLINE, tokenize.INDENT, tokenize.DEDENT, tokenize.ENDMARKER):
+                continue
+            out.append((tokenize.tok_name[t.type], t.string))
+    except (tokenize.TokenError, IndentationError, SyntaxError):
+        return None
+    return out
+
+
+def comments(src: str):
+    t = tokens(src)
+    return None if t is None else sorted(s for k, s in t if k == 'COMMENT')
+
+
+# ----------------------------------------------------------------------------------------------------------------------
+# carriers
+
+@dataclass
+class Carrier:
+    id: str
+    src: str                       # formatted carrier program (module)
+    path: list                     # [(field, idx|None), ...] from Module to the container node
+    field: str                     # field (may be virtual) the edits target
+    tmpl: str                      # same construct with '{}' where the elements go (rendered + parsed by CPython only)
+    old: List[str]                 # source of each existing element (hand-written; validated against src at import)
+    new: List[str]                 # sources of new elements as written inside the template
+    sep: str = ', '                # separator used when handing several new elements to pfst as one code string
+    tsep: Optional[str] = None     # separator inside the template (default: sep)
+    tmpl0: Optional[str] = None    # rendering with zero elements when the template itself cannot express it
+    tindent: str = ''              # indentation added to continuation lines of multi-line elements inside the template
+    new_one: Optional[List[str]] = None  # code for single-element puts when it differs from the slice form (e.g. decorator w/o '@')
+    elems: Optional[Callable] = None     # ast node -> list of element dump strings (default: dumps of getattr(node, field))
+    blank: Optional[Callable] = None     # ast node -> None, removes the elements (for "rest of tree unchanged")
+    code_suffix: str = ''          # appended to a multi-element code string handed to pfst (Assign targets slice: trailing ' =')
+    elem_ops: bool = True          # element-level replace()/remove() are equivalent entry points (not for virtual / str fields)
+    refuse_re: Optional[str] = None      # documented refusal (message regex) that is legitimate although the result would be valid
+    tags: tuple = ()
+
+    def locate_ast(self, tree: ast.AST) -> ast.AST:
+        n = tree
+        for fld, idx in self.path:
+            n = getattr(n, fld)
+            if idx is not None:
+                n = n[idx]
+        return n
+
+    def locate(self, root: FST) -> FST:
+        return self.locate_ast(root.a).f
+
+    def get_elems(self, node: ast.AST) -> List[str]:
+        if self.elems:
+            return self.elems(node)
+        return [dump(x) for x in getattr(node, self.field)]
+
+    def do_blank(self, node: ast.AST) -> None:
+        if self.blank:
+            self.blank(node)
+        else:
+            setattr(node, self.field, [])
+
+    def code(self, k: int) -> str:
+        return self.sep.join(self.new[:k]) + self.code_suffix
+
+    def code_one(self) -> str:
+        return (self.new_one or self.new)[0]
+
+    def render(self, srcs: List[str]) -> str:
+        if not srcs and self.tmpl0 is not None:
+            return self.tmpl0
+        return self.tmpl.format((self.sep if self.tsep is None else self.tsep).join(e.replace('\n', '\n' + self.tindent) for e in srcs))
+
+    def parse_elems(self, srcs: List[str]) -> Optional[List[str]]:
+        """Element dumps of the template rendered with `srcs` as CPython parses it; None if that is not valid Python."""
+        try:
+            t = ast.parse(self.render(srcs))
+        except SyntaxError:
+            return None
+        try:
+            return self.get_elems(self.locate_ast(t))
+        except (AttributeError, IndexError):
+            return None
+
+
+def _dict_elems(n):
+    return [('**' if k is None else dump(k)) + ':' + dump(v) for k, v in zip(n.keys, n.values)]
+
+
+def _dict_blank(n):
+    n.keys = []
+    n.values = []
+
+
+def _set_elems(n):
+    if isinstance(n, ast.Call) and dump(n) == "Call(func=Name(id='set', ctx=Load()), args=[], keywords=[])":
+        return []
+    e = [dump(x) for x in n.elts]
+    return [] if e in (["Starred(value=Tuple(elts=[], ctx=Load()), ctx=Load())"], ["Starred(value=List(elts=[], ctx=Load()), ctx=Load())"]) else e
+
+
+def _cmp_elems(n):  # operands only: which neighbouring operator goes with an operand is the documented op_side choice
+    if not isinstance(n, ast.Compare):
+        return [dump(n)]
+    return [dump(n.left)] + [dump(c) for c in n.comparators]
+
+
+def _cmp_blank(n):
+    n.left = ast.Constant(0)
+    n.ops = []
+    n.comparators = []
+
+
+def _args_elems(n):  # Call._args / ClassDef._bases: positional + keywords merged in source order
+    items = [(a.lineno, a.col_offset, dump(a)) for a in (n.args if hasattr(n, 'args') else n.bases)]
+    items += [(k.value.lineno, k.value.col_offset, dump(k)) for k in n.keywords]
+    return [d for _, _, d in sorted(items)]
+
+
+def _args_blank(n):
+    if hasattr(n, 'args'):
+        n.args = []
+    else:
+        n.bases = []
+    n.keywords = []
+
+
+def _is_doc(b):
+    return b and isinstance(b[0], ast.Expr) and isinstance(b[0].value, ast.Constant) and isinstance(b[0].value.value, str)
+
+
+def _body_elems(n):  # virtual _body: body without docstring
+    return [dump(x) for x in (n.body[1:] if _is_doc(n.body) else n.body)]
+
+
+def _body_blank(n):
+    n.body = n.body[:1] if _is_doc(n.body) else []
+
+
+def _single_or(fieldname, cls):
+    """Containers which normalise to their only element (BoolOp, MatchOr)."""
+    def elems(n):
+        return [dump(x) for x in getattr(n, fieldname)] if isinstance(n, cls) else [dump(n)]
+    return elems
+
+
+L0 = [('body', 0)]
+V0 = [('body', 0), ('value', None)]
+CARRIERS: List[Carrier] = [
+    Carrier('list4c', 'x = [a,  # ca\n     b, (c),\n     d  # cd\n    ]\ny = 1\n', V0, 'elts', 'x = [{}]\ny = 1\n', ['a', 'b', 'c', 'd'], ['p', 'q + 1']),
+    Carrier('list0', 'x = [ ]  # c\n', V0, 'elts', 'x = [{}]\n', [], ['p', '(q)']),
+    Carrier('tuple3', 'f(0); x = a, b , c # t\nz\n', [('body', 1), ('value', None)], 'elts', 'f(0); x = ({},)\nz\n', ['a', 'b', 'c'], ['p', '*q'], tmpl0='f(0); x = ()\nz\n'),
+    Carrier('tuple3p', 'x = (a,\n     b,\n     c,\n)\n', V0, 'elts', 'x = ({},)\n', ['a', 'b', 'c'], ['p', 'q'], tmpl0='x = ()\n'),
+    Carrier('set3', 'x = {a, b,\\\n c}\n', V0, 'elts', 'x = {{*(), {}}}\n', ['a', 'b', 'c'], ['p', 'q'],
+            elems=lambda n: [e for e in _set_elems(n) if e != "Starred(value=Tuple(elts=[], ctx=Load()), ctx=Load())"], blank=lambda n: setattr(n, 'elts', [])),
+    Carrier('call4', 'r = f(a, *b, c,\n      d)  # call\n', V0, 'args', 'r = f({})\n', ['a', '*b', 'c', 'd'], ['p', '*q']),
+    Carrier('callargs', 'r = f(a, *b, k=v,\n      **d)  # call\n', V0, '_args', 'r = f({})\n', ['a', '*b', 'k=v', '**d'], ['w=1', '**q'],
+            elems=_args_elems, blank=_args_blank, elem_ops=False),
+    Carrier('dict3', 'd = {a: 1,  # first\n     **b,\n     c: 3}\n', V0, '_all', 'd = {{{}}}\n', ['a: 1', '**b', 'c: 3'], ['p: 0', '**q'],
+            elems=_dict_elems, blank=_dict_blank, elem_ops=False),
+    Carrier('del3', 'if t:\n    del a, b[0], c.d  # del\n', [('body', 0), ('body', 0)], 'targets', 'if t:\n    del {}\n', ['a', 'b[0]', 'c.d'], ['p', 'q.r']),
+    Carrier('assign3', 'a = b = \\\n  c = v  # asg\n', L0, 'targets', '{} = v\n', ['a', 'b', 'c'], ['p', 'q.r'], sep=' = ', code_suffix=' ='),
+    Carrier('global3', 'def f():\n    global a, b, \\\n        c  # g\n', [('body', 0), ('body', 0)], 'names', 'def f():\n    global {}\n', ['a', 'b', 'c'], ['p', 'q'], elem_ops=False),
+    Carrier('import3', 'import a, b.c as d, e  # imp\n', L0, 'names', 'import {}\n', ['a', 'b.c as d', 'e'], ['p', 'q.r as s']),
+    Carrier('fromimp3', 'from m import (a,\n    b as c,  # c\n    d)\n', L0, 'names', 'from m import ({})\n', ['a', 'b as c', 'd'], ['p', 'q as s']),
+    Carrier('boolop3', 'x = a and b \\\n    and c\n', V0, 'values', 'x = ({})\n', ['a', 'b', 'c'], ['p', 'q'], sep=' and ',
+            elems=_single_or('values', ast.BoolOp), blank=lambda n: setattr(n, 'values', []), tmpl0='x = \n'),
+    Carrier('compare3', 'x = a < b == (c) \\\n  is not d\n', V0, '_all', 'x = ({})\n', ['a', 'b', 'c', 'd'], ['p', 'q'], sep=' > ',
+            elems=_cmp_elems, blank=_cmp_blank, refuse_re="requires an 'op'", elem_ops=False, tmpl0='x = \n'),
+    Carrier('ifbody3', 'if t:  # hdr\n    a = 1  # ca\n\n    # pre b\n    b = 2\n    c = 3; d = 4\nz = 0\n', L0, 'body',
+            'if t:\n    {}\nz = 0\n', ['a = 1', 'b = 2', 'c = 3', 'd = 4'], ['p = 5', 'q(6)'], sep='\n', tsep='\n    '),
+    Carrier('modbody', '# top\na = 1\n\n\ndef f(): pass\n\n# mid\nb = 2  # cb\n', [], 'body', '{}\n', ['a = 1', 'def f(): pass', 'b = 2'], ['p = 5', 'q(6)'], sep='\n'),
+    Carrier('funcbody', 'def f():\n    """doc"""\n    a = 1\n    # c\n    b = 2\n', L0, '_body',
+            'def f():\n    """doc"""\n    {}\n', ['a = 1', 'b = 2'], ['p = 5', 'q(6)'], sep='\n', tsep='\n    ', elems=_body_elems, blank=_body_blank, elem_ops=False),
+    Carrier('classbases', 'class C(A, *B, metaclass=M,\n        **kw):  # cls\n    pass\n', L0, '_bases', 'class C({}):\n    pass\n',
+            ['A', '*B', 'metaclass=M', '**kw'], ['w=1', '**q'], elems=_args_elems, blank=_args_blank, elem_ops=False),
+    Carrier('decos', '@a\n@b(1)  # cb\n# between\n@c.d\ndef f(): pass\n', L0, 'decorator_list', '{}\ndef f(): pass\n', ['@a', '@b(1)', '@c.d'], ['@p', '@q(2)'],
+            sep='\n', new_one=['p']),
+    Carrier('withitems', 'with a as x, b, (c) as z:  # w\n    pass\n', L0, 'items', 'with {}:\n    pass\n', ['a as x', 'b', '(c) as z'], ['p as y', 'q']),
+    Carrier('matchseq', 'match v:\n    case [a, 1, *r]:  # m\n        pass\n', [('body', 0), ('cases', 0), ('pattern', None)], 'patterns',
+            'match v:\n    case [{}]:\n        pass\n', ['a', '1', '*r'], ['p', '2']),
+    Carrier('matchor', 'match v:\n    case 1 | (2) | \\\n      3:\n        pass\n', [('body', 0), ('cases', 0), ('pattern', None)], 'patterns',
+            'match v:\n    case ({}):\n        pass\n', ['1', '2', '3'], ['4', '5'], sep=' | ', elems=_single_or('patterns', ast.MatchOr),
+            blank=lambda n: setattr(n, 'patterns', []), tmpl0='x = \n'),
+    Carrier('compifs', 'x = [i for i in z if a if (b)\n     if c]\n', [('body', 0), ('value', None), ('generators', 0)], 'ifs',
+            'x = [i for i in z {}]\n', ['if a', 'if b', 'if c'], ['if p', 'if q'], sep=' ', new_one=['p']),
+    Carrier('generators', 'x = [i for i in a for j in b  # c\n     for k in c]\n', V0, 'generators',
+            'x = [i {}]\n', ['for i in a', 'for j in b', 'for k in c'], ['for p in q', 'for r in s if t'], sep=' '),
+    Carrier('typeparams', 'def f[T, *U, **V](): pass\n', L0, 'type_params', 'def f[{}](): pass\n', ['T', '*U', '**V'], ['P', 'Q: int'], tmpl0='def f(): pass\n'),
+    Carrier('handlers', 'try:\n    pass\nexcept A:  # ca\n    pass\nexcept (B, C) as e:\n    pass\n\nexcept D:\n    pass\n', L0, 'handlers',
+            'try:\n    pass\n{}\n', ['except A:\n    pass', 'except (B, C) as e:\n    pass', 'except D:\n    pass'],
+            ['except P:\n    pass', 'except Q as q:\n    pass'], sep='\n'),
+    Carrier('cases', 'match v:\n    case 1:  # c1\n        pass\n    case 2: pass\n    # pre 3\n    case _:\n        pass\n', L0, 'cases',
+            'match v:\n    {}\n', ['case 1:\n    pass', 'case 2: pass', 'case _:\n    pass'], ['case 7:\n    pass', 'case [8]:\n    pass'],
+            sep='\n', tsep='\n    ', tindent='    '),
+    Carrier('uni_list', 'ü = [é,  # ça\n     "ñ", b, 𝒳]\n', V0, 'elts', 'ü = [{}]\n', ['é', '"ñ"', 'b', '𝒳'], ['π', '"ж"'], tags=('utf8',)),
+]
+CARRIER = {c.id: c for c in CARRIERS}
+
+
+def _validate_carriers():
+    for c in CARRIERS:
+        e1 = c.get_elems(c.locate_ast(ast.parse(c.src)))
+        e2 = c.parse_elems(c.old)
+        assert e1 == e2, ('carrier self-check failed', c.id, e1, e2)
+        assert c.parse_elems(c.old + c.new) is not None or c.id in ('callargs', 'classbases'), ('new elems do not parse', c.id)
+
+
+_validate_carriers()
+
+
+class Ctx:
+    """One carrier instantiated: live FST + CPython's view of the original source."""
+
+    def __init__(self, c: Carrier):
+        self.c = c
+        with untraced():
+            self.root = FST(c.src, 'exec')
+            self.src0 = c.src
+            self.old = list(c.old)
+            self.dump0 = ast.dump(self.root.a, include_attributes=True)
+            self.cont = c.locate(self.root)
+            reset_globals()
+        self.n = len(self.old)
+
+    def rest_dump(self, tree: ast.AST) -> str:
+        self.c.do_blank(self.c.locate_ast(tree))
+        return ast.dump(tree)
+
+    def check_after(self, exp_srcs: List[str], sig: str, olist=True):
+        """After a successful edit: O-parse (C01) and O-list (C03): the container equals what CPython parses from the
+        independently rendered expected element list, and nothing else in the tree changed."""
+        with untraced():
+            root = self.root
+            t = o_parse(root, sig)
+            if olist:
+                expected = self.c.parse_elems(exp_srcs)
+                check(expected is not None, sig + '.invalid_result_accepted', (root.src, exp_srcs))
+                try:
+                    got = self.c.get_elems(self.c.locate_ast(t))
+                except (AttributeError, IndexError) as e:
+                    fail(sig + '.container_gone', (root.src, repr(e)))
+                check(got == expected, sig + '.container_not_list_semantics', (root.src, got, expected))
+                r_after = self.rest_dump(t)
+                r_before = self.rest_dump(ast.parse(self.src0))
+                if r_after != r_before:
+                    # containers which legitimately collapse to their single element (BoolOp/MatchOr/Compare of one operand)
+                    exp_tree = ast.parse(self.c.render(exp_srcs))
+                    check(ast.dump(exp_tree) == ast.dump(ast.parse(root.src)), sig + '.rest_of_tree_changed',
+                          (root.src, _first_diff(r_before, r_after)))
+            links_ok(root, sig)
+
+    def check_unchanged(self, sig: str):
+        """After a raise (C12): source and tree exactly as before, registry empty."""
+        with untraced():
+            check(self.root.src == self.src0, sig + '.src_changed_by_failed_edit', (self.src0, self.root.src))
+            realize_tree(self.root.a)
+            d = ast.dump(self.root.a, include_attributes=True)
+            check(d == self.dump0, sig + '.tree_changed_by_failed_edit', _first_diff(self.dump0, d))
+            check(not fst_core._MODIFYING, sig + '.modification_lock_leaked', len(fst_core._MODIFYING))
+            links_ok(self.root, sig)
+
+    def valid(self, exp_srcs: List[str]) -> bool:
+        """Is the list-semantics result valid Python for this container (judged by CPython on a fresh rendering)?"""
+        return self.c.parse_elems(exp_srcs) is not None
+
+
+# ----------------------------------------------------------------------------------------------------------------------
+# edit operations with symbolic ints. Each returns (expected element SOURCES | None if Python semantics say IndexError,
+# thunk performing the edit through one public entry point).
+
+def ref_index(n: int, idx):
+    """Python list index -> position or None (IndexError), pinned."""
+    if idx < -n or idx >= n:
+        return None
+    return pin(idx if idx >= 0 else idx + n, 0, max(0, n - 1))
+
+
+def ref_insert_pos(n: int, idx):
+    if idx < 0:
+        idx = idx + n
+        if idx < 0:
+            idx = 0
+    elif idx > n:
+        idx = n
+    return pin(idx, 0, n)
+
+
+def ref_slice(n: int, start, stop):
+    s, e = ref_slice_indices(n, start, stop)
+    return pin(s, 0, n), pin(e, 0, n)
+
+
+def view_of(cont: FST, fld: str):
+    return getattr(cont, fld)
+
+
+OPS = {}
+
+
+def op(name):
+    def deco(f):
+        OPS[name] = f
+        return f
+    return deco
+
+
+@op('put_slice')
+def _op_put_slice(x: Ctx, k, a, b, c, d):
+    s, e = ref_slice(x.n, a, b)
+    exp = None if e < s else x.old[:s] + x.c.new[:k] + x.old[e:]
+    return exp, lambda: x.cont.put_slice(x.c.code(k) if k else None, a, b, x.c.field)
+
+
+@op('put_slice_end')
+def _op_put_slice_end(x: Ctx, k, a, b, c, d):
+    s, e = ref_slice(x.n, a, x.n)
+    exp = None if e < s else x.old[:s] + x.c.new[:k] + x.old[e:]
+    return exp, lambda: x.cont.put_slice(x.c.code(k) if k else None, a, 'end', x.c.field)
+
+
+@op('view_setslice')
+def _op_view_setslice(x: Ctx, k, a, b, c, d):
+    s, e = ref_slice(x.n, a, b)
+    exp = None if e < s else x.old[:s] + x.c.new[:k] + x.old[e:]
+
+    def run():
+        view_of(x.cont, x.c.field)[a:b] = x.c.code(k) if k else None
+    return exp, run
+
+
+@op('view_delslice')
+def _op_view_delslice(x: Ctx, k, a, b, c, d):
+    s, e = ref_slice(x.n, a, b)
+    exp = None if e < s else x.old[:s] + x.old[e:]
+
+    def run():
+        del view_of(x.cont, x.c.field)[a:b]
+    return exp, run
+
+
+@op('put_one')
+def _op_put_one(x: Ctx, k, a, b, c, d):
+    i = ref_index(x.n, a)
+    exp = None if i is None else x.old[:i] + x.c.new[:1] + x.old[i + 1:]
+    return exp, lambda: x.cont.put(x.c.code_one(), a, x.c.field)
+
+
+@op('view_setitem')
+def _op_view_setitem(x: Ctx, k, a, b, c, d):
+    i = ref_index(x.n, a)
+    exp = None if i is None else x.old[:i] + x.c.new[:1] + x.old[i + 1:]
+
+    def run():
+        view_of(x.cont, x.c.field)[a] = x.c.code_one()
+    return exp, run
+
+
+@op('view_delitem')
+def _op_view_delitem(x: Ctx, k, a, b, c, d):
+    i = ref_index(x.n, a)
+    exp = None if i is None else x.old[:i] + x.old[i + 1:]
+
+    def run():
+        del view_of(x.cont, x.c.field)[a]
+    return exp, run
+
+
+@op('insert')
+def _op_insert(x: Ctx, k, a, b, c, d):
+    i = ref_insert_pos(x.n, a)
+    exp = x.old[:i] + x.c.new[:1] + x.old[i:]
+    return exp, lambda: x.cont.insert(x.c.code_one(), a, x.c.field)
+
+
+@op('subview')
+def _op_subview(x: Ctx, k, a, b, c, d):
+    """view[a:b].<method c>(code, idx d): the sub-view arithmetic in view.py + healing of the view's own bounds."""
+    s, e = ref_slice(x.n, a, b)
+    if e < s:
+        return None, lambda: view_of(x.cont, x.c.field)[a:b]
+    sub = x.old[s:e]
+    assume(0 <= c <= 6)
+    m = pin(c, 0, 6)
+    new1 = x.c.new[:1]
+    newk = x.c.new[:k]
+    if m == 0:      # insert(code, idx)
+        i = ref_insert_pos(len(sub), d)
+        nsub = sub[:i] + new1 + sub[i:]
+    else:
+        assume(d == 0)
+        if m == 1:    # append
+            nsub = sub + new1
+        elif m == 2:    # extend
+            nsub = sub + newk
+        elif m == 3:    # prepend
+            nsub = new1 + sub
+        elif m == 4:    # prextend
+            nsub = newk + sub
+        elif m == 5:    # replace(code, one=False)
+            nsub = newk
+        else:           # remove
+            nsub = []
+    exp = x.old[:s] + nsub + x.old[e:]
+
+    def run():
+        v = view_of(x.cont, x.c.field)[a:b]
+        code1, codek = x.c.code_one(), (x.c.code(k) if k else None)
+        if m == 0:
+            v.insert(code1, d)
+        elif m == 1:
+            v.append(code1)
+        elif m == 2:
+            v.extend(codek)
+        elif m == 3:
+            v.prepend(code1)
+        elif m == 4:
+            v.prextend(codek)
+        elif m == 5:
+            v.replace(codek, one=False)
+        else:
+            v.remove()
+        # the view must now denote exactly the edited sub-list (self-healing indices, C02)
+        vs, ve = v.start, v.stop
+        with untraced():
+            vs, ve = R(vs), R(ve)
+            check((vs, ve) == (s, s + len(nsub)), 'subview.view_bounds_wrong_after_edit', (m, (s, e), (vs, ve), len(nsub)))
+    return exp, run
+
+
+@op('elem_remove')
+def _op_elem_remove(x: Ctx, k, a, b, c, d):
+    i = ref_index(x.n, a)
+    exp = None if i is None else x.old[:i] + x.old[i + 1:]
+
+    def run():
+        e = view_of(x.cont, x.c.field)[a]
+        e.remove()
+    return exp, run
+
+
+@op('elem_replace')
+def _op_elem_replace(x: Ctx, k, a, b, c, d):
+    i = ref_index(x.n, a)
+    exp = None if i is None else x.old[:i] + x.c.new[:1] + x.old[i + 1:]
+
+    def run():
+        e = view_of(x.cont, x.c.field)[a]
+        e.replace(x.c.code_one())
+    return exp, run
+
+
+USES = {'put_slice': 2, 'put_slice_end': 1, 'view_setslice': 2, 'view_delslice': 2, 'put_one': 1, 'view_setitem': 1,
+        'view_delitem': 1, 'insert': 1, 'subview': 4, 'elem_remove': 1, 'elem_replace': 1}
+OPTS = dict(norm=True)   # the properties are stated "with parenthesization and normalization enabled"
+
+
+def make_edit_fn(cid: str, opname: str, k: int, mode: str):
+    """mode: 'c03' (O-list + O-parse + refusal legitimacy), 'c01' (O-parse only)"""
+    c = CARRIER[cid]
+    nuse = USES[opname]
+
+    def fn(a: int, b: int, c_: int, d: int):
+        for i, v in enumerate((a, b, c_, d)):
+            if i >= nuse:
+                assume(v == 0)
+        x = Ctx(c)
+        exp, run = OPS[opname](x, k, a, b, c_, d)
+        sig = f'{cid}.{opname}[{k}]'
+        try:
+            with FST.options(**OPTS):
+                run()
+        except EXPECTED_RAISES as e:
+            ename = type(e).__name__
+            x.check_unchanged(sig + '.raise')
+            if exp is None:
+                check(ename == 'IndexError', sig + '.wrong_exception_for_bad_index', ename)
+                cover('raise.index')
+            elif ename == 'NotImplementedError':
+                cover('raise.notimpl')
+            elif c.refuse_re and re.search(c.refuse_re, str(e)):
+                cover('raise.documented')
+            else:
+                with untraced():
+                    check(not x.valid(exp), sig + '.valid_request_refused', (ename, str(e)[:200], exp))
+                cover('raise.legit')
+            return
+        check(exp is not None, sig + '.bad_index_accepted', x.root.src)
+        x.check_after(exp, sig, olist=(mode != 'c01'))
+        cover('ok')
+    fn.__name__ = f'edit_{cid}_{opname}_{k}'
+    return fn
+
+
+FN_EDIT = ['fst.fst.FST.put_slice', 'fst.fst.FST.put', 'fst.fst.FST.insert', 'fst.view.FSTView.__setitem__', 'fst.view.FSTView.__delitem__',
+           'fst.view.FSTView._fixup_item_indices', 'fst.view.FSTView._base_indices', 'fst.view.FSTView.insert',
+           'fst.fst_misc.fixup_slice_indices', 'fst.fst_misc.fixup_one_index', 'fst.fst_put_slice._put_slice', 'fst.fst_put_one._put_one',
+           'fst.fst_core._put_src', 'fst.fst_core._offset']
 
 
 def c03_cells():
-    return []
+    cells = []
+    quick_carriers = ['list4c', 'tuple3', 'dict3', 'ifbody3', 'callargs', 'global3']
+    for c in CARRIERS:
+        for opname in OPS:
+            if opname.startswith('elem_') and not c.elem_ops:
+                continue
+            ks = [0, 1, 2] if opname in ('put_slice', 'view_setslice') else [2] if opname == 'subview' else [1]
+            if opname == 'put_slice_end':
+                ks = [1]
+            for k in ks:
+                quick = c.id in quick_carriers and (opname in ('put_slice', 'subview', 'view_setitem', 'insert') and k in (1, 2)
+                                                    or opname == 'view_delslice')
+                cells.append(Cell(f'P1.{c.id}.{opname}[{k}]', make_edit_fn(c.id, opname, k, 'c03'), 'P', FN_EDIT,
+                                  f'carrier {c.id} ({len(c.src)} chars, field {c.field}); op {opname} with {k} new element(s); '
+                                  f'{USES[opname]} symbolic int parameter(s) over all of Z',
+                                  tier='quick' if quick else 'thorough', budget=240, per_path=60,
+                                  out='programs other than this carrier; new-code snippets other than ' + repr(c.new),
+                                  reset=reset_globals))
+    return cells
